@@ -10,6 +10,7 @@ refactors instead of matching one spelling of the code:
               never when the read object is mutated afterwards, fresh containers only into a single use.
   N4 ifexp    ``if c: S(a) else: S(b)`` with S the same assignment / call / return becomes ``S(a if c else b)``.
   N5 loops    ``acc = []; for ..: [if ..:] acc.append(e)`` becomes a comprehension (opt-in).
+  N6 deep     (opt-in) helpers returning from inside try/except or from a search loop are inlined too (for..else + break).
 
 The result is a detached copy grafted under the original parent, so qualname_of / enclosing_class /
 Repo.module_of keep working; line numbers of moved code are those of where it was written."""
@@ -166,6 +167,9 @@ def _returns_only_in_own_body(loop: ast.AST) -> bool:
     return ok(loop.body)
 
 
+_DEEP = [False]  # set by normalize(deep=True): also rewrite returns inside try/except and search loops
+
+
 def _tailify(stmts: List[ast.stmt], budget: List[int]) -> Optional[List[ast.stmt]]:
     """Rewrite so that every Return is in tail position (early returns become if/else); None if impossible."""
     out: List[ast.stmt] = []
@@ -201,7 +205,7 @@ def _tailify(stmts: List[ast.stmt], budget: List[int]) -> Optional[List[ast.stmt
             ast.copy_location(new, st)
             out.append(new)
             return out
-        if isinstance(st, ast.Try) and _contains_return(st):
+        if _DEEP[0] and isinstance(st, ast.Try) and _contains_return(st):
             # try/except whose parts return, in tail position: the returns stay inside the try statement
             rest = stmts[i + 1:]
             if st.orelse or _contains_return(st.finalbody):
@@ -216,7 +220,7 @@ def _tailify(stmts: List[ast.stmt], budget: List[int]) -> Optional[List[ast.stmt
             ast.copy_location(new, st)
             out.append(new)
             return out
-        if isinstance(st, ast.For) and _contains_return(st) and not st.orelse and not _own_breaks(st) and _returns_only_in_own_body(st):
+        if _DEEP[0] and isinstance(st, ast.For) and _contains_return(st) and not st.orelse and not _own_breaks(st) and _returns_only_in_own_body(st):
             # search loop: ``for x in xs: if p(x): return x`` + rest  ->  the returns become (result; break) and the
             # rest moves into the loop's else clause (_finish does the rewriting; marked here)
             rest = _tailify(stmts[i + 1:], budget)
@@ -373,7 +377,7 @@ class _Inliner:
         if body and isinstance(body[0], ast.Expr) and isinstance(body[0].value, ast.Constant) and isinstance(body[0].value.value, str):
             body = body[1:]
         body = clone(body)
-        if isinstance(context, ast.Return):
+        if _DEEP[0] and isinstance(context, ast.Return):
             tail = body  # `return h(..)`: the helper's returns are the caller's returns wherever they sit
         else:
             tail = _tailify(body, [40])
@@ -418,12 +422,18 @@ class _Inliner:
             ast.fix_missing_locations(node)
             return node
 
-        if isinstance(context, ast.Return):
+        if _DEEP[0] and isinstance(context, ast.Return):
             out = prologue + tail
             if not _always_returns(tail):
                 out = out + [at(ast.Return(value=None), context)]
             self.inlined.append(h.name)
             return out
+        if isinstance(context, ast.Return):
+            make = lambda v, r: [at(ast.Return(value=v), r)]
+            fall = lambda: [at(ast.Return(value=None), context)]
+            out = prologue + _finish(tail, make, fall)
+            self.inlined.append(h.name)
+            return out or [at(ast.Pass(), context)]
         if isinstance(context, ast.Expr):
             make = lambda v, r: ([] if v is None or isinstance(v, ast.Constant) or isinstance(v, ast.Name) else [at(ast.Expr(value=v), r)])
             fall = lambda: []
@@ -981,8 +991,19 @@ def _loops(fn: ast.AST) -> None:
 # ---------------------------------------------------------------------------------------------------------
 
 def normalize(repo: Repo, mod: Module, fn: ast.AST, *, inline: bool = True, keep: Iterable[str] = (), consts: bool = True,
-              copyprop: str = "temps", ifexp: bool = True, loops: bool = False) -> ast.AST:
-    """Normal form of *fn* (a def of *mod*); the original tree is left untouched."""
+              copyprop: str = "temps", ifexp: bool = True, loops: bool = False, deep: bool = False) -> ast.AST:
+    """Normal form of *fn* (a def of *mod*); the original tree is left untouched.
+    deep=True additionally inlines helpers that return from inside try/except or from a search loop (the loop gets
+    a for..else with break), and helpers called as `return h(..)` whatever the position of their returns."""
+    _DEEP[0] = bool(deep)
+    try:
+        return _normalize(repo, mod, fn, inline=inline, keep=keep, consts=consts, copyprop=copyprop, ifexp=ifexp, loops=loops)
+    finally:
+        _DEEP[0] = False
+
+
+def _normalize(repo: Repo, mod: Module, fn: ast.AST, *, inline: bool = True, keep: Iterable[str] = (), consts: bool = True,
+               copyprop: str = "temps", ifexp: bool = True, loops: bool = False) -> ast.AST:
     new = clone(fn)
     _attach_parents(new)
     new._parent = parent(fn)  # type: ignore[attr-defined]
